@@ -23,22 +23,26 @@ Definition C05_strict_full : Prop :=
         scalars: nothing more).  Required keys, null at non-null, list structure, object shape, nested
         objects at any depth and __typename literals are enforced exactly.
         UNION-typed composite fields are included (the discriminated union is as strict as the members'
-        classes).  INTERFACE-typed ones are included when every possible type has its own inline fragment
-        and every type condition names the interface or a possible type (strict_sub); there the relaxed
+        classes).  INTERFACE-typed ones are included when every type condition names the interface or a
+        possible type (strict_sub) and, unless every possible type has its own inline fragment, __typename is
+        selected there only under its own key (una_ok: the base class validates the objects of all possible
+        types without a variant, its Literal lists them all, and two differently aliased __typename fields
+        would admit two different names; C05_interface_base_variant_satisfiable); there the relaxed
         relation's third parameter (self_ok = true, Exec.abs_candidates) makes the ONE exception explicit:
         the interface's own name is admitted as runtime type, because the Literal of the generated base
         class contains it (finding F8; C05_interface_self_typename_accepted, C05_interface_hypotheses_satisfiable).
         Guards beyond C01's (sels_strict): no __typename directly at the operation root (F29: plain str),
         no @skip/@include on a field of non-null type (its added Optional also admits an explicit null),
         every custom scalar used is configured (otherwise the annotation is Any, which admits null).
+        @mixin extra bases as in C01: mx lists the names, none of them a class of the table (mx_ok).
         "ev P": P holds at every sufficiently large fuel of the conformance checker. ---- *)
 Theorem C05_strict_partial :
-  forall C S frs fuel kind name sels root own pub' cls g gs j n,
+  forall C S frs fuel kind name mixins sels root own pub' cls g gs mx j n,
     root_type_name S kind = Ok root ->
-    op_parse fuel C S frs kind name [] sels = Ok (own, pub', false) ->
-    all_classes fuel C S frs (DOp kind name [] sels) = Ok cls ->
-    op_ok g true C S frs root sels = true -> sels_strict gs C S frs false root sels = true ->
-    no_basemodel own = true ->
+    op_parse fuel C S frs kind name mixins sels = Ok (own, pub', false) ->
+    all_classes fuel C S frs (DOp kind name mixins sels) = Ok cls ->
+    op_ok g true C S frs mx mixins root sels = true -> sels_strict gs C S frs mx false root sels = true ->
+    mx_ok cls mx = true -> no_basemodel own = true ->
     accepts n cls (schema_enums S) (AClass (pascal_s name)) j = true ->
     covers n cls (AClass (pascal_s name)) j = true ->
     exists fc0, forall fc, fc >= fc0 -> conf_op_gen lax_leaf false true fc S frs root sels j = true.
@@ -47,12 +51,12 @@ Print Assumptions C05_strict_partial.
 
 (* the same, read as a rejection: not lax-conformant (at any fuel) and no undeclared key => rejected *)
 Theorem C05_strict_partial_rejects :
-  forall C S frs fuel kind name sels root own pub' cls g gs j n,
+  forall C S frs fuel kind name mixins sels root own pub' cls g gs mx j n,
     root_type_name S kind = Ok root ->
-    op_parse fuel C S frs kind name [] sels = Ok (own, pub', false) ->
-    all_classes fuel C S frs (DOp kind name [] sels) = Ok cls ->
-    op_ok g true C S frs root sels = true -> sels_strict gs C S frs false root sels = true ->
-    no_basemodel own = true ->
+    op_parse fuel C S frs kind name mixins sels = Ok (own, pub', false) ->
+    all_classes fuel C S frs (DOp kind name mixins sels) = Ok cls ->
+    op_ok g true C S frs mx mixins root sels = true -> sels_strict gs C S frs mx false root sels = true ->
+    mx_ok cls mx = true -> no_basemodel own = true ->
     (forall fc, conf_op_gen lax_leaf false true fc S frs root sels j = false) ->
     covers n cls (AClass (pascal_s name)) j = true ->
     accepts n cls (schema_enums S) (AClass (pascal_s name)) j = false.
@@ -63,11 +67,12 @@ Print Assumptions C05_strict_partial_rejects.
    mixin fragments are on the object type itself and again strict — in particular without __typename,
    which a fragment class types as plain str; table guards as for C01_accepts_partial_mixins) *)
 Theorem C05_strict_partial_mixins :
-  forall C S frs F kind name sels root own pub' cls g gs j n,
+  forall C S frs F kind name mixins sels root own pub' cls g gs mx j n,
     root_type_name S kind = Ok root ->
-    op_parse F C S frs kind name [] sels = Ok (own, pub', false) ->
-    all_classes F C S frs (DOp kind name [] sels) = Ok cls ->
-    op_okM g true C S frs root sels = true -> sels_strictM gs C S frs false root sels = true ->
+    op_parse F C S frs kind name mixins sels = Ok (own, pub', false) ->
+    all_classes F C S frs (DOp kind name mixins sels) = Ok cls ->
+    op_okM g true C S frs mx mixins root sels = true -> sels_strictM gs C S frs false root sels = true ->
+    mx_ok cls mx = true ->
     nodupb (map c_name cls) = true -> no_basemodel cls = true -> frag_no_skip F C S frs = true ->
     n >= F + g + 2 ->
     accepts n cls (schema_enums S) (AClass (pascal_s name)) j = true ->
@@ -78,11 +83,12 @@ Print Assumptions C05_strict_partial_mixins.
 
 (* at the level of one generated class, any depth below it *)
 Theorem C05_object_strict :
-  forall C S frs fuel g gs nested pub cn tn sels at_ tv out pub' cs kv n,
-    parse_type_def fuel C S frs pub cn tn sels at_ [] tv = Ok (out, pub', false) ->
-    sels_ok g true C S frs at_ tn tn sels = true -> sels_strict gs C S frs nested tn sels = true ->
+  forall C S frs mx fuel g gs nested pub cn tn sels at_ eb tv out pub' cs kv n,
+    parse_type_def fuel C S frs pub cn tn sels at_ eb tv = Ok (out, pub', false) ->
+    sels_ok g true C S frs mx at_ tn tn sels = true -> sels_strict gs C S frs mx nested tn sels = true ->
     (at_ = true -> has_typename sels = true) ->
     tv = (if nested then Some [tn] else None) -> table_ok cs out ->
+    mx_ok cs mx = true -> harmless cs eb ->
     accepts n cs (schema_enums S) (AClass cn) (JObj kv) = true ->
     covers n cs (AClass cn) (JObj kv) = true ->
     exists fc0, forall fc, fc >= fc0 ->
@@ -90,6 +96,28 @@ Theorem C05_object_strict :
                    (collect_scopes fc S frs tn [(false, sels)]) kv = true.
 Proof. exact obj_strict. Qed.
 Print Assumptions C05_object_strict.
+
+(* one generated class whose __typename Literal lists several names tvs (the base class at an interface
+   position: r the interface, tvs its own name and the possible types without a variant): the validated
+   object is lax-conformant for ONE runtime type of tvs — the one its __typename names.  tvs = [r] is
+   C05_object_strict. *)
+Theorem C05_object_strict_variants :
+  forall C S frs mx fuel gs nested pub cn r sels at_ eb tv tvs out pub' cs kv n,
+    parse_type_def fuel C S frs pub cn r sels at_ eb tv = Ok (out, pub', false) ->
+    tvs <> [] ->
+    (forall rt, In rt tvs -> exists g, sels_ok g true C S frs mx at_ rt r sels = true) ->
+    sels_strict gs C S frs mx nested r sels = true ->
+    (tvs = [r] \/ (at_ = true /\ exists gu, una_ok gu S frs r sels = true)) ->
+    (at_ = true -> has_typename sels = true) ->
+    tv = (if nested then Some tvs else None) -> table_ok cs out ->
+    mx_ok cs mx = true -> harmless cs eb ->
+    accepts n cs (schema_enums S) (AClass cn) (JObj kv) = true ->
+    covers n cs (AClass cn) (JObj kv) = true ->
+    exists rt, In rt tvs /\ exists fc0, forall fc, fc >= fc0 ->
+      conf_obj_gen false (conf_val_gen lax_leaf false true fc S frs) S rt
+                   (collect_scopes fc S frs rt [(false, sels)]) kv = true.
+Proof. exact obj_strict_gen. Qed.
+Print Assumptions C05_object_strict_variants.
 
 (* the lax relation is exactly Exec.v's relation plus the table: it contains every conformant
    response, and on non-null values the generated scalar annotation accepts exactly lax_leaf *)
@@ -216,7 +244,7 @@ Example C05_partial_hypotheses_satisfiable :
     root_type_name SY "query" = Ok "Query" /\
     op_parse 10 C0 SY [] "query" "GetPeople" [] selsY = Ok (own, pub', false) /\
     all_classes 10 C0 SY [] (DOp "query" "GetPeople" [] selsY) = Ok cls /\
-    op_ok 10 true C0 SY [] "Query" selsY = true /\ sels_strict 10 C0 SY [] false "Query" selsY = true /\
+    op_ok 10 true C0 SY [] [] [] "Query" selsY = true /\ sels_strict 10 C0 SY [] [] false "Query" selsY = true /\
     no_basemodel own = true /\
     (* accepted and covered, with a lax Int leaf *)
     (let j := userY (JStr "User") (JStr "1") (JObj [("city", JStr "X"); ("zip", JStr "12")]) in
@@ -261,7 +289,7 @@ Example C05_mixins_hypotheses_satisfiable :
     root_type_name SY "query" = Ok "Query" /\
     op_parse 10 C0 SY frsN "query" "GetUsers" [] selsN = Ok (own, pub', false) /\
     all_classes 10 C0 SY frsN (DOp "query" "GetUsers" [] selsN) = Ok cls /\
-    op_okM 10 true C0 SY frsN "Query" selsN = true /\ sels_strictM 10 C0 SY frsN false "Query" selsN = true /\
+    op_okM 10 true C0 SY frsN [] [] "Query" selsN = true /\ sels_strictM 10 C0 SY frsN false "Query" selsN = true /\
     nodupb (map c_name cls) = true /\ no_basemodel cls = true /\ frag_no_skip 10 C0 SY frsN = true /\
     accepts 22 cls (schema_enums SY) (AClass (pascal_s "GetUsers")) (userN (JObj [("city", JStr "X")])) = true /\
     covers 22 cls (AClass (pascal_s "GetUsers")) (userN (JObj [("city", JStr "X")])) = true /\
@@ -289,7 +317,7 @@ Example C05_union_hypotheses_satisfiable :
     root_type_name SY "query" = Ok "Query" /\
     op_parse 10 C0 SY [] "query" "Find" [] selsU = Ok (own, pub', false) /\
     all_classes 10 C0 SY [] (DOp "query" "Find" [] selsU) = Ok cls /\
-    op_ok 10 true C0 SY [] "Query" selsU = true /\ sels_strict 10 C0 SY [] false "Query" selsU = true /\
+    op_ok 10 true C0 SY [] [] [] "Query" selsU = true /\ sels_strict 10 C0 SY [] [] false "Query" selsU = true /\
     no_basemodel own = true /\
     accepts 12 cls (schema_enums SY) (AClass "Find")
             (JObj [("found", JObj [("__typename", JStr "Bot"); ("v", JInt 3)])]) = true /\
@@ -342,7 +370,7 @@ Example C05_interface_hypotheses_satisfiable :
     root_type_name SI2 "query" = Ok "Query" /\
     op_parse 10 C0 SI2 [] "query" "Q" [] selsI2 = Ok (own, pub', false) /\
     all_classes 10 C0 SI2 [] (DOp "query" "Q" [] selsI2) = Ok cls /\
-    op_ok 10 true C0 SI2 [] "Query" selsI2 = true /\ sels_strict 10 C0 SI2 [] false "Query" selsI2 = true /\
+    op_ok 10 true C0 SI2 [] [] [] "Query" selsI2 = true /\ sels_strict 10 C0 SI2 [] [] false "Query" selsI2 = true /\
     no_basemodel own = true /\
     (let j := JObj [("named", JObj [("__typename", JStr "A"); ("name", JStr "n"); ("x", JInt 1)])] in
      accepts 12 cls (schema_enums SI2) (AClass "Q") j = true /\ covers 12 cls (AClass "Q") j = true /\
@@ -355,6 +383,89 @@ Example C05_interface_hypotheses_satisfiable :
             (JObj [("named", JObj [("__typename", JStr "B"); ("name", JStr "n")])]) = false /\
     accepts 12 cls (schema_enums SI2) (AClass "Q")
             (JObj [("named", JObj [("__typename", JStr "A"); ("name", JStr "n"); ("x", JStr "no")])]) = false.
+Proof.
+  do 3 eexists.
+  split; [reflexivity|].
+  split; [vm_compute; reflexivity|].
+  split; [vm_compute; reflexivity|].
+  vm_compute. repeat split.
+Qed.
+
+(* ---- non-vacuity with @mixin (operation, field with sub-selection, mixin fragment): extra bases after
+        BaseModel / the fragment class, strictness unaffected ---- *)
+Definition frsNx : list fragdef :=
+  [{| fr_name := "UserBits"; fr_on := "User"; fr_mixins := ["FragMixin"];
+      fr_sel := [SField None "fullName" true [] None] |}].
+Definition selsNx : list sel :=
+  [SField None "users" false ["RowMixin"]
+     (Some [SField None "id" false [] None; SSpread "UserBits" false;
+            SField (Some "homeAddress") "address" false ["AddrMixin"] (Some [SField None "city" false [] None])])].
+Definition userNx (addr : json) : json :=
+  JObj [("users", JArr [JObj [("id", JStr "1"); ("fullName", JStr "A"); ("homeAddress", addr)]])].
+Definition mxNx : list string := ["OpMixin"; "RowMixin"; "AddrMixin"; "FragMixin"].
+
+Example C05_at_mixin_hypotheses_satisfiable :
+  exists own pub' cls,
+    root_type_name SY "query" = Ok "Query" /\
+    op_parse 10 C0 SY frsNx "query" "GetUsers" ["OpMixin"] selsNx = Ok (own, pub', false) /\
+    all_classes 10 C0 SY frsNx (DOp "query" "GetUsers" ["OpMixin"] selsNx) = Ok cls /\
+    op_okM 10 true C0 SY frsNx mxNx ["OpMixin"] "Query" selsNx = true /\
+    sels_strictM 10 C0 SY frsNx false "Query" selsNx = true /\ mx_ok cls mxNx = true /\
+    nodupb (map c_name cls) = true /\ no_basemodel cls = true /\ frag_no_skip 10 C0 SY frsNx = true /\
+    map c_bases cls = [["BaseModel"; "OpMixin"]; ["UserBits"; "RowMixin"]; ["BaseModel"; "AddrMixin"];
+                       ["BaseModel"; "FragMixin"]] /\
+    accepts 22 cls (schema_enums SY) (AClass (pascal_s "GetUsers")) (userNx (JObj [("city", JStr "X")])) = true /\
+    covers 22 cls (AClass (pascal_s "GetUsers")) (userNx (JObj [("city", JStr "X")])) = true /\
+    conf_op 10 SY frsNx "Query" selsNx (userNx (JObj [("city", JStr "X")])) = true /\
+    accepts 22 cls (schema_enums SY) (AClass (pascal_s "GetUsers")) (userNx (JObj [("city", JNull)])) = false /\
+    accepts 22 cls (schema_enums SY) (AClass (pascal_s "GetUsers")) (userNx (JObj [])) = false.
+Proof.
+  do 3 eexists.
+  split; [reflexivity|].
+  split; [vm_compute; reflexivity|].
+  split; [vm_compute; reflexivity|].
+  vm_compute. repeat split.
+Qed.
+
+(* ---- an interface position where possible types have NO fragment of their own (B, C: validated by the
+        base class, whose Literal is ["B"; "C"; "Named"]) next to one that has (A), and an interface
+        position without any fragment: inside C05_strict_partial; foreign names, wrong leaves, A's field on
+        a B object (undeclared key: not covered) are rejected ---- *)
+Definition SI3 : schema :=
+  {| s_types := [("Query", DObject [] [("named", TNamed "Named"); ("plain", TNamed "Named")]);
+                 ("Named", DInterface [] [("name", TNamed "String")]);
+                 ("A", DObject ["Named"] [("name", TNamed "String"); ("x", TNamed "Int")]);
+                 ("B", DObject ["Named"] [("name", TNamed "String")]);
+                 ("C", DObject ["Named"] [("name", TNamed "String"); ("y", TNamed "Int")]);
+                 ("Int", DScalar); ("String", DScalar)];
+     s_query := Some "Query"; s_mutation := None; s_subscription := None |}.
+Definition selsI3 : list sel :=
+  [SField None "named" false []
+     (Some [SField None "__typename" false [] None; SField None "name" false [] None;
+            SInline (Some "A") false [SField None "x" false [] None]]);
+   SField None "plain" false []
+     (Some [SField None "__typename" false [] None; SField None "name" false [] None])].
+Definition jI3 (tn1 : string) (extra : list (string * json)) (tn2 : string) : json :=
+  JObj [("named", JObj ([("__typename", JStr tn1); ("name", JStr "n")] ++ extra));
+        ("plain", JObj [("__typename", JStr tn2); ("name", JNull)])].
+Example C05_interface_base_variant_satisfiable :
+  exists own pub' cls,
+    root_type_name SI3 "query" = Ok "Query" /\
+    op_parse 10 C0 SI3 [] "query" "Q" [] selsI3 = Ok (own, pub', false) /\
+    all_classes 10 C0 SI3 [] (DOp "query" "Q" [] selsI3) = Ok cls /\
+    op_ok 10 true C0 SI3 [] [] [] "Query" selsI3 = true /\ sels_strict 10 C0 SI3 [] [] false "Query" selsI3 = true /\
+    no_basemodel own = true /\
+    map c_name cls = ["Q"; "QNamedNamed"; "QNamedA"; "QPlain"] /\
+    (let j := jI3 "B" [] "C" in
+     accepts 12 cls (schema_enums SI3) (AClass "Q") j = true /\ covers 12 cls (AClass "Q") j = true /\
+     conf_op 10 SI3 [] "Query" selsI3 j = true) /\
+    (let j := jI3 "A" [("x", JInt 1)] "A" in
+     accepts 12 cls (schema_enums SI3) (AClass "Q") j = true /\ covers 12 cls (AClass "Q") j = true /\
+     conf_op 10 SI3 [] "Query" selsI3 j = true) /\
+    accepts 12 cls (schema_enums SI3) (AClass "Q") (jI3 "D" [] "C") = false /\
+    accepts 12 cls (schema_enums SI3) (AClass "Q") (jI3 "B" [] "Query") = false /\
+    accepts 12 cls (schema_enums SI3) (AClass "Q") (jI3 "A" [("x", JStr "no")] "C") = false /\
+    covers 12 cls (AClass "Q") (jI3 "B" [("x", JInt 1)] "C") = false.
 Proof.
   do 3 eexists.
   split; [reflexivity|].
